@@ -20,7 +20,7 @@ ASSUMPTIONS = ["freshness is read from the two private stale flags (harness-side
                "content (e.g. duration of an empty sequence) end that branch and are listed as outcome classes"]
 REQUIRED_FLAGS = ["mutator_on_stale_view", "overwrite_abs_while_abs_stale", "overwrite_rel_while_rel_stale",
                   "iter_abandoned", "copy_taken", "wrap_transpose", "model_predicted", "differential_compared",
-                  "insertion_at_every_slot_of_a_long_sequence", "pause_of_tens_of_thousands_of_ticks"]
+                  "insertion_at_every_slot_of_a_long_sequence", "pause_of_tens_of_thousands_of_ticks", "non_integral_tick_values"]
 
 NOTE = ("note_on", "note_off")
 
@@ -54,6 +54,15 @@ def _content(i, p):
 
 def make_seed(i, p):
     content, fresh = divmod(i, 3)
+    if content == 7:
+        # non-integral tick values: the only public way to get them is halving odd tick distances without re-quantising
+        s = lib.seq_abs([(1, 11, p, 0, 64), (13, 24, p + 4, 0, 50), (101, 21, p + 7, 1, 9)], [("ts", 0, 4, 4)], 193)
+        s.scale(0.5, quantise_afterwards=False)
+        if fresh != 1:
+            s.refresh()
+        if fresh == 0:
+            s.invalidate_rel()
+        return s
     evs, dur = _content(content, p)
     if fresh == 1:   # relative only
         msgs, t = [], 0
@@ -298,12 +307,12 @@ def context(tier, seed):
     p = [60, 40, 90][seed % 3]
     depth = 3 if tier == "quick" else 4
     return {"p": p, "depth": depth, "tier": tier,
-            "bounds": {"depth": depth, "operations": OPNAMES, "seeds": "7 contents (4 small, 2 long with an insertion at every slot, 1 with pauses up to 70001 ticks) x {abs-only, rel-only, both}",
+            "bounds": {"depth": depth, "operations": OPNAMES, "seeds": "8 contents (4 small, 2 long with an insertion at every slot, 1 with pauses up to 70001 ticks, 1 with non-integral ticks from halving) x {abs-only, rel-only, both}",
                        "pitch_base": p}}
 
 
 def seeds(ctx):
-    return 21
+    return 24
 
 
 def build(seed_i, hist, ctx):
@@ -324,7 +333,7 @@ def enabled(state, seed_i, hist, ctx):
         if not hist:
             return OPNAMES + [f"ins_abs:{t}" for t in slot_ticks(seed_i, ctx["p"])]
         return AFTER_INSERT if len(hist) == 1 and hist[0].startswith("ins_abs:") else []
-    if content == 6 and len(hist) >= 2:
+    if content in (6, 7) and len(hist) >= 2:
         return []
     return OPNAMES
 
@@ -388,6 +397,8 @@ def check_step(s, op, ctx):
     writes = op_of(op)[2]
     if op.startswith("ins_abs:"):
         facts.append("insertion_at_every_slot_of_a_long_sequence")
+    if any(isinstance(e[0], float) and e[0] != int(e[0]) for e in pre_abs[0]):
+        facts.append("non_integral_tick_values")
     if any(e[0] > 70000 for e in pre_abs[0]):
         facts.append("pause_of_tens_of_thousands_of_ticks")
     if (writes == "abs" and f0 == "R") or (writes == "rel" and f0 == "A"):
